@@ -75,7 +75,9 @@ Proj(dl, by, cl, pcs, ses, pp, cm) ==
    bu |-> by["up"], bd |-> by["down"],
    cc |-> cl["client"], cv |-> cl["covert"],
    xu |-> pcs["up"] = "done", xd |-> pcs["down"] = "done",
-   ses |-> ses, ret |-> pp = "returned"]
+   ses |-> ses, ret |-> pp = "returned",
+   \* the join Proxy waits on (wg.Wait) can complete: both halves have signalled it - which they do LAST, after Close(dst)
+   join |-> pcs["up"] = "done" /\ pcs["down"] = "done"]
 
 Obs(a, d, c, n, e, off) ==
   [a |-> a, d |-> d, c |-> c, n |-> n, e |-> e, off |-> off,
